@@ -821,6 +821,9 @@ pub struct Shared {
   pub connection: Mutex<Option<Subscription<'static>>>,
   pub env: Env,
   pub root: Mutex<Option<Ob>>,
+  /// connectable cases with `conn_take_only`: (the recorder that goes through take, the
+  /// observable() the others subscribe to)
+  pub root_plain: Mutex<Option<(usize, Ob)>>,
   pub subs: Mutex<Vec<Option<Subscription<'static>>>>,
   pub recorders: Vec<Vec<Reaction>>,
   pub log: Arc<Mutex<RunLog>>,
@@ -844,6 +847,10 @@ pub fn do_subscribe(sh: &Arc<Shared>, k: usize) {
   let root = match lk(&sh.root).clone() {
     Some(r) => r,
     None => return,
+  };
+  let root = match lk(&sh.root_plain).clone() {
+    Some((only, plain)) if only != k => plain,
+    _ => root,
   };
   if lk(&sh.log).sub_marks[k].is_some() {
     return;
@@ -988,6 +995,10 @@ pub fn setup(case: &Case, log: &Arc<Mutex<RunLog>>) -> (Env, Arc<Shared>) {
     Some(ConnKind::RefCount) => src.ref_count().observable(),
     Some(ConnKind::Replay) => src.replay().observable(),
   };
+  let root_plain = match (&case.conn, case.conn_take, case.conn_take_only) {
+    (Some(_), Some(_), Some(k)) => Some((k, root.clone())),
+    _ => None,
+  };
   let root = match (&case.conn, case.conn_take) {
     (Some(_), Some(n)) => root.take(n),
     _ => root,
@@ -997,6 +1008,7 @@ pub fn setup(case: &Case, log: &Arc<Mutex<RunLog>>) -> (Env, Arc<Shared>) {
     connection: Mutex::new(None),
     env: env.clone(),
     root: Mutex::new(Some(root)),
+    root_plain: Mutex::new(root_plain),
     subs: Mutex::new(vec![None; nrec]),
     recorders: case.recorders.clone(),
     log: log.clone(),
@@ -1034,6 +1046,8 @@ pub fn run_action(sh: &Arc<Shared>, a: &Action) {
     Action::DropObservable => {
       let root = lk(&sh.root).take();
       drop(root);
+      let plain = lk(&sh.root_plain).take();
+      drop(plain);
     }
     Action::IsSubscribed(k) => {
       let s = lk(&sh.subs)[*k].clone();
@@ -1219,6 +1233,7 @@ fn epilogue(case: &Case, opts: &RunOpts, log: &Arc<Mutex<RunLog>>, env: Env, sh:
   lk(&log).in_call = Some("drop handles".into());
   let ctx = env.ctx.clone();
   *lk(&sh.root) = None;
+  *lk(&sh.root_plain) = None;
   *lk(&sh.publish) = None;
   lk(&sh.subs).clear();
   for h in env.hots.iter() {
